@@ -136,7 +136,7 @@ Proof.
     - intros k' v' Hin y Hy. apply In_aset in Hin as [[-> ->]|Hin]; [apply Hb'; exact Hy|].
       eapply (proj2 Hc); eassumption. }
   assert (Hgen : cache_good D prev (fst (match update_match now x b1 with
-                                         | Some b2 => (aset k b2 c, false)
+                                         | Some b2 => (aset k b2 c, revived x b1)
                                          | None => (aset k (x :: b1) c, true)
                                          end))).
   { destruct (update_match now x b1) as [b2|] eqn:Eu; simpl.
